@@ -2,7 +2,7 @@
    Only restatements; proofs are in C14/Proofs*.v. *)
 From Coq Require Import List NArith Bool String Ascii.
 From T4V Require Import Base.Str C14.Model C14.ProofsContent C14.ProofsCards C14.ProofsCase
-  C14.ProofsSplit C14.ProofsBlocks C14.ProofsCell C14.ProofsFront.
+  C14.ProofsSplit C14.ProofsBlocks C14.ProofsCell C14.ProofsFront C14.ProofsNumber.
 Import ListNotations.
 Open Scope string_scope.
 
@@ -323,4 +323,36 @@ Proof.
          | |- _ = _ => reflexivity
          | |- _ \/ (exists c r, String ?x ?y = String c r /\ _) => right; exists x, y; split; reflexivity
          end).
+Qed.
+
+(* ---- number spellings (token level) ---- *)
+
+(* MIP.mip.datacard.to_float: for one decimal number -- sign s, mantissa
+   digits[.digits] or .digits, exponent [+-]?digits -- the spellings with a d
+   or D exponent marker, and with no marker when the exponent carries a sign
+   (1.5d3, 1.5D3, 1.5+3), are all read, and what is handed to float() is the
+   same mantissa and exponent digits joined by "e"; the e/E spellings are read
+   as they stand. (What float() makes of "1.5e3" is not modelled.) *)
+Theorem C14_to_float_spellings :
+  forall (s d1 : string) (frac : option string) (e : string),
+  sign_str s -> mant_ok d1 frac -> exp_ok e = true ->
+  let m := mantissa d1 frac in
+  to_float_form (s ++ m ++ "d" ++ e) = ReadFortran (s ++ m ++ "e" ++ e) /\
+  to_float_form (s ++ m ++ "D" ++ e) = ReadFortran (s ++ m ++ "e" ++ e) /\
+  (starts_sign e -> to_float_form (s ++ m ++ e) = ReadFortran (s ++ m ++ "e" ++ e)) /\
+  to_float_form (s ++ m ++ "e" ++ e) = ReadAsIs (s ++ m ++ "e" ++ e) /\
+  to_float_form (s ++ m ++ "E" ++ e) = ReadAsIs (s ++ m ++ "E" ++ e).
+Proof. exact to_float_spellings. Qed.
+Print Assumptions C14_to_float_spellings.
+
+Example C14_to_float_spellings_nonvacuous :
+  sign_str "-" /\ mant_ok "6" (Some "40875") /\ exp_ok "-2" = true /\ starts_sign "-2" /\
+  to_float_form "-6.40875-2" = ReadFortran "-6.40875e-2" /\
+  to_float_form ".5D+1" = ReadFortran ".5e+1" /\
+  to_float_form "5.0+0" = ReadFortran "5.0e+0" /\
+  to_float_form "1.5e3d2" = NotRead /\ to_float_form "1.5+-3" = NotRead.
+Proof.
+  repeat split; try reflexivity; try discriminate.
+  - right; right; reflexivity.
+  - left; discriminate.
 Qed.
